@@ -2,7 +2,7 @@
 # tools/mutcheck.sh <patch.diff> <Cnn> [<Cnn>...]  — apply a seeded change to /repo, run the quick checks, undo it.
 # Not part of any registered command. Refuses to run when /repo is dirty.
 set -u
-patch="$1"; shift
+patch="$(realpath "$1")"; shift
 if [ -n "$(git -C /repo status --porcelain)" ]; then echo "mutcheck: /repo is dirty" >&2; exit 2; fi
 if ! git -C /repo apply "$patch" 2>/dev/null; then
   if ! (cd /repo && patch -p1 --no-backup-if-mismatch -s < "$patch"); then echo "mutcheck: patch does not apply" >&2; git -C /repo checkout -- . ; git -C /repo clean -fdq; exit 2; fi
